@@ -3,7 +3,7 @@
 import json, sys, glob, subprocess
 pid = sys.argv[1]
 base = subprocess.check_output(['python3', '/verif/notes/seed_prompt.py', pid]).decode()
-base = base.replace(f"/tmp/seed-{pid}", f"/tmp/seed2-{pid}")
+base = base.replace(f"/tmp/seed-{pid}", f"/tmp/seed3-{pid}")
 used = []
 for d in sorted(glob.glob(f'/verif/seeded/{pid}-*')):
     try: used.append(json.load(open(d + '/meta.json'))['what_breaks'][:260])
